@@ -277,6 +277,48 @@ Definition interp_gather (idx val R : BT) : BT :=
 Fixpoint dsum_pieces (l : list BT) : BT :=
   match l with [] => dzero [] 0 0 | [A] => A | A :: r => dadd A (dsum_pieces r) end.
 
+(* batch_repeat_linear_operator.py (square case): _move_repeat_batches_to_columns / _move_repeat_batches_back.
+   Batch shapes innermost-first.  pbs = base batch shape padded with 1s to the length of the output batch shape,
+   rp = output batch // pbs (the per-dimension repeat counts), every output batch index I splits as I = R * pbs + S.
+   The repeat parts R go to the columns:  column' = col * numel(rp) + flat(R)  (row-major, innermost fastest). *)
+Fixpoint bpad_to (bs Bout : shape) : shape :=      (* padding_dims + base.batch_shape, innermost first *)
+  match Bout with
+  | [] => []
+  | _ :: B' => match bs with [] => 1%nat :: bpad_to [] B' | s :: bs' => s :: bpad_to bs' B' end
+  end.
+Fixpoint bquot (a b : shape) : shape :=
+  match a, b with x :: a', y :: b' => (x / y)%nat :: bquot a' b' | _, _ => [] end.
+Fixpoint bcomb (pbs : shape) (R S : bidx) : bidx :=
+  match pbs, R, S with d :: p', r :: R', s :: S' => (r * d + s)%nat :: bcomb p' R' S' | _, _, _ => [] end.
+Fixpoint bdivi (pbs : shape) (I : bidx) : bidx :=
+  match pbs, I with d :: p', i :: I' => (i / d)%nat :: bdivi p' I' | _, _ => [] end.
+Fixpoint bmodi (pbs : shape) (I : bidx) : bidx :=
+  match pbs, I with d :: p', i :: I' => (i mod d)%nat :: bmodi p' I' | _, _ => [] end.
+Definition brep_to_cols (pbs rp : shape) (c : nat) (Xe : BT) : BT :=
+  let Rn := bnumel rp in
+  mkBT pbs (nr Xe) (c * Rn) (fun S i u => ent Xe (bcomb pbs (bunflat rp (u mod Rn)%nat) S) i (u / Rn)%nat).
+Definition brep_back (pbs rp Bout : shape) (c : nat) (Z : BT) : BT :=
+  let Rn := bnumel rp in
+  mkBT Bout (nr Z) c (fun I i col => ent Z (bmodi pbs I) i (col * Rn + bflat rp (bdivi pbs I))%nat).
+
+(* mul_linear_operator.py: (A o B) X for A = L L^T in root form:
+     left_res[i, a, c] = X[i, c] * L[i, a];  view(n, rank * m);  right._matmul;  view(n, rank, m);  * L[i, a];  sum over a *)
+Definition root_cols (e : OpExpr) : nat :=       (* _root_decomposition_size(): root.size(-1) *)
+  match e with Root r | LowRankRoot r => sz_n (sz r) | Chol A _ => nc A | _ => 0%nat end.
+Definition root_dense (e : OpExpr) : BT :=       (* self.root.to_dense(); for a non-dense root operator its dense MEANING is used *)
+  match e with
+  | Root r | LowRankRoot r => match r with Dense t => t | _ => denote r end
+  | Chol A _ => A
+  | _ => dzero [] 0 0
+  end.
+Definition mul_mm (L : BT) (g : BT -> BT) (Bs : shape) (X : BT) : BT :=
+  let k := nc L in
+  let c := nc X in
+  let n := nr L in
+  let W := mkBT (bcast Bs (bsh X)) n (k * c) (fun I i u => bget X I i (u mod c)%nat * bget L I i (u / c)%nat) in
+  let V := fr (g (fr W)) in
+  mkBT (bsh V) n c (fun I i col => zsum k (fun a => ent V I i (a * c + col)%nat * bget L I i a)).
+
 (* ---- _matmul / _t_matmul --------------------------------------------------------------------- *)
 
 (* classes whose multiplication is NOT yet transcribed are given their specification here (and are
@@ -337,7 +379,21 @@ Fixpoint mm (t : bool) (e : OpExpr) (X : BT) {struct e} : BT :=
       | CatRows, true | CatCols, false => dsum_pieces (pieces ops 0%nat)
       | CatBatch _, _ => spec_mm t e X
       end
-  | Mul _ _ | BatchRepeat _ _ => spec_mm t e X
+  | BatchRepeat b rep =>
+      let s := sz e in
+      let Bout := bcast (sz_b s) (bsh X) in
+      if Nat.eqb (sz_m s) (sz_n s)
+      then (* is_square: fold the repeated batches into columns of one product with the base *)
+        let pbs := bpad_to (sz_b (sz b)) Bout in
+        let rp := bquot Bout pbs in
+        brep_back pbs rp Bout (nc X) (fr (mm t b (fr (brep_to_cols pbs rp (nc X) (dexpand Bout X)))))
+      else (* rely on broadcasting of the base product *)
+        dexpand Bout (mm t b X)
+  | Mul l r =>
+      (* the constructor puts the operand with the larger root on the left *)
+      if (root_cols l <? root_cols r)%nat
+      then mul_mm (fr (root_dense r)) (mm false l) (sz_b (sz e)) X
+      else mul_mm (fr (root_dense l)) (mm false r) (sz_b (sz e)) X
   end.
 
 (* ---- public entry points ---------------------------------------------------------------------- *)
